@@ -2,7 +2,7 @@
   DDProps.Histories — the "for EVERY history" capstone shared by C01, C02, C06, C14, C17.
 
   A history is a list of user operations `UOp` (declare / var / find_or_add / ite / apply /
-  neg / cofactor / quantify / compose / rename / incref / decref / collect_garbage) with
+  neg / cofactor / quantify / compose / rename / let / incref / decref / collect_garbage) with
   ARBITRARY arguments, run by `runOp` on the model from the empty manager `{}`; `OpsGuarded`
   only asks for the three caller obligations the code does not check (DESIGN 2.2).  Whatever
   the history — rejected calls, collections, re-used node numbers, warm computed table —
@@ -300,5 +300,36 @@ example : ∃ r m', runOp (.apply "/\\" 2 (some 3) none) ⟪exHistory⟫.m = (.o
 
 /-- C14 on the example: `c` is not declared after the history -/
 example : ⟪exHistory⟫.m.tbl.vars["c"]? = none ∧ ⟪exHistory⟫.m.nvars = 2 := by decide
+
+/-- a longer history with NINE more rejected calls (undeclared name, undeclared rename target,
+unknown node, `incref`/`decref` of a non-node, negative and too large level, wrong arity,
+conflicting level).  The calls of `quantify`/`compose`/`let` that reach the per-call memo are
+not in this list only because the memo is a `Std.HashMap` (indices are `USize`, opaque to the
+kernel), so `decide` cannot run them; the theorems cover them all the same. -/
+def exHistory2 : List UOp := exHistory.take 12 ++
+  [ .cofactor 4 [(.name "zz", true)],         -- REJECTED: undeclared name
+    .rename 4 [("a", "c")],                   -- REJECTED: undeclared target
+    .rename 99 [("a", "b")],                  -- REJECTED: unknown node
+    .neg 4,                                   -- ¬(a ∧ b) = -4
+    .apply "and" 4 none none,                 -- REJECTED: wrong arity
+    .incref 99,                               -- REJECTED: not a node
+    .decref 99,                               -- REJECTED: not a node
+    .findOrAdd (-3) 1 1,                      -- REJECTED: negative level
+    .findOrAdd 7 1 (-1),                      -- REJECTED: level out of range
+    .declare "b" (some 0),                    -- REJECTED: `b` has level 1
+    .apply "xor" 2 (some 3) none,             -- a ⊕ b = -5 : new node 5 = (a, ¬b, b), complemented
+    .collectGarbage ]                         -- frees 5 and 2 again: only 4 (held) and its child 3 remain
+
+set_option maxRecDepth 10000 in
+theorem exHistory2_guarded : OpsGuarded exHistory2 St.init := by decide
+
+/-- (checked by the kernel directly: the elaborator's own evaluator does not share the state
+between the steps of the final cascade) -/
+theorem exHistory2_results : (results exHistory2 St.init).map resCode =
+    [1000, 1001, 2, 3, 4, 0, -1000, -1000, -1000, 0, 2, 4,
+     -1000, -1000, -1000, -4, -1000, -1000, -1000, -1000, -1000, -1000, -5, 0] ∧
+    ⟪exHistory2⟫.m.tbl.succ.keys = [3, 4] ∧ ⟪exHistory2⟫.ext 4 = 1 := by decide +kernel
+
+example : GoodState ⟪exHistory2⟫.m ⟪exHistory2⟫.ext := reachable_inv exHistory2 exHistory2_guarded
 
 end DD
